@@ -22,9 +22,9 @@ CHECKS = {
  "C07": ("exploration", "runtime reference-model monitor: encoders/decoders executed on boundary-heavy message vectors and compared with exact Z_t models and an independent arbitrary-precision canonical embedding",
          "BGV: every level x batched/coefficient x IsNTT x uint64/int64 x boundary patterns x lengths x scales, exact residues, signed range, zero padding, decode under maximal admissible noise, product of encodings, Embed into ring.Poly/ringqp.Poly; CKKS: both rings, all LogDimensions, 8 precisions, 4 input and output types, Encode/Embed/Decode/DecodePublic/FFT/IFFT against an O(n^2) big-float embedding with the rounding + working-precision bound. 8 genuine defects recorded as known findings.",
          "trusts math/big; precision losses below the stated floating-point tolerance are invisible; classes masked by known findings are listed in DESIGN.md", "4/C07"),
- "C08": ("fault_enumeration", "runtime fault injection at the io.Reader/io.Writer boundary with byte-level and value-level oracles over a zoo of 30 serializable types",
+ "C08": ("fault_enumeration", "runtime fault injection at the io.Reader/io.Writer boundary with byte-level and value-level oracles over a zoo of 34 serializable types (plus 6 MarshalBinary-only types)",
          "Every type x value variant: size/identity over 5 writing entry points, 12 reading entry points (UnmarshalBinary, bytes.Reader, bufio 16/17/100/4096 and buffer.Buffer with position sentinel, 1-byte/half/random-chunk transports plain and under shared bufio) x fresh and dirty receivers, mixed-type streams through shared bufio readers/writers, truncation at every offset (exhaustive <= 4 KiB), 8-byte-window and single-byte corruption at every offset (exhaustive <= 0.8 KiB quick / 6 KiB thorough) under an address-space cap, writer failure at every offset.",
-         "zoo values are built by allocation + random coefficients (content is not interpreted by the codecs); bootstrapping key bundles and scheme-level (bgv/ckks/bootstrapping) parameter literals are covered by C19 instead; corrupted encodings that decode to a different self-consistent object are accepted", "4/C08"),
+         "zoo values are built by allocation + random coefficients (content is not interpreted by the codecs); bootstrapping key bundles are zoo members; bgv/ckks parameters, ring.Ring, rlwe.Scale, dft.MatrixLiteral and mod1.ParametersLiteral (MarshalBinary/UnmarshalBinary only) get round trips into fresh and used receivers plus truncation; the bootstrapping parameter literal is covered by C19; corrupted encodings that decode to a different self-consistent object are accepted", "4/C08"),
  "C12": ("exploration", "runtime monitor: homomorphic linear transformations executed on generated diagonal sets / API modes and compared slot-wise with the plaintext matrix-vector product, exact metadata, exactly-advertised Galois keys",
          "bgv, bfv and ckks (std/CI), logN 4..10, 13 diagonal-set kinds with signed indices, BSGS ratios -1..5, independent ct / matrix / receiver levels, Evaluate/EvaluateNew/EvaluateMany/EvaluateSequential(+New), permutations via GetDiagonals; exact mod t for BGV, worst-case-budget bound for CKKS; level/scale checked exactly; evaluator holds exactly the advertised Galois keys. 2 genuine defects recorded as known findings.",
          "EvaluateMany outputs after a BSGS matrix with giant steps are masked by known finding 2; CKKS >53-bit precision path not exercised", "4/C12"),
